@@ -34,7 +34,7 @@ WantVisAs(line, cfg, tag) ==
   ELSE WantVis(line, cfg)
 
 \* The implementation-shaped model, run on the same history (drift report, never a verdict)
-IS(b) == INSTANCE Impl_Stream WITH Modes <- {}, Buf <- b, ColorOnly <- FALSE, Fixes <- {"D1", "D14", "D2", "D18", "D19", "D20", "D21", "D23"}
+IS(b) == INSTANCE Impl_Stream WITH Modes <- {}, Buf <- b, ColorOnly <- FALSE, Fixes <- {"D1", "D14", "D2", "D18", "D19", "D20", "D21", "D23", "D24"}
 RECURSIVE ImplRun(_, _, _, _)
 ImplRun(b, h, st, k) == IF k > Len(h) THEN st ELSE ImplRun(b, h, IS(b)!Step(st, k, h[k]), k + 1)
 ImplRows(e) == IS(e.cfg.buf)!Finish(ImplRun(e.cfg.buf, e.lines, IS(e.cfg.buf)!InitS, 1)).w
@@ -77,7 +77,7 @@ RowMatches(h, cfg, w, g) ==
                                            /\ g.lab = (CASE w.d[3] = "comparing" -> "modified" [] w.d[3] \in {"submodule", "onlyin"} -> ""
                                                           [] OTHER -> w.d[3])
                                            /\ g.mode = (w.d[4] = 2)
-                                           /\ g.bin = w.d[5]
+                                           /\ (line.kd # "renbin" => g.bin = w.d[5])
 
 IsHeader(w) == w.t \in {"fileHdr", "fileHdrOpt", "hunkHdr", "commit", "mergeHdr", "bar"}
 Skippable(g) == g.t \in {"blank", "deco"}
@@ -98,11 +98,22 @@ Match(h, cfg, want, got, i, j) ==
   ELSE IF Optional(want[i]) THEN Match(h, cfg, want, got, i + 1, j)
   ELSE <<i, j>>
 
+\* C14 "reports ... binary files": a renamed binary file with changes is reported as binary by its header or by
+\* its "Binary files ... differ" line shown as it stands (first input line for which neither holds, 0 if none)
+BinaryUnreported(e) ==
+  LET bad == {k \in DOMAIN e.lines :
+                /\ e.lines[k].c = "binary" /\ SecStart(e.lines, k) > 0 /\ e.lines[SecStart(e.lines, k)].kd = "renbin"
+                /\ ~\E j \in DOMAIN e.rows : \/ e.rows[j].bid = e.lines[k].bid
+                                              \/ (e.rows[j].t = "fileHdr" /\ e.rows[j].bin /\ e.lines[k].g \in {e.rows[j].fs[i] : i \in DOMAIN e.rows[j].fs})}
+  IN IF bad = {} THEN 0 ELSE CHOOSE k \in bad : \A k2 \in bad : k <= k2
+
 Judge(e) ==
   IF e.code # 0 \/ e.stderr # 0 THEN [why |-> "exit", i |-> e.code, j |-> e.stderr, wt |-> "", gt |-> ""]
   ELSE LET want == Expected(e.lines)
            m == Match(e.lines, e.cfg, want, e.rows, 1, 1)
-       IN IF m = <<0, 0>> THEN [why |-> "", i |-> 0, j |-> 0, wt |-> "", gt |-> ""]
+       IN IF m = <<0, 0>> /\ ~e.cfg.colorOnly /\ BinaryUnreported(e) # 0
+          THEN [why |-> "binary-unreported", i |-> BinaryUnreported(e), j |-> 0, wt |-> "fileHdr", gt |-> "fileHdr"]
+          ELSE IF m = <<0, 0>> THEN [why |-> "", i |-> 0, j |-> 0, wt |-> "", gt |-> ""]
           ELSE [why |-> "rows", i |-> m[1], j |-> m[2],
                 wt |-> IF m[1] <= Len(want) THEN want[m[1]].t ELSE "end",
                 gt |-> IF m[2] <= Len(e.rows) THEN e.rows[m[2]].t ELSE "end"]
